@@ -1089,15 +1089,18 @@ coap_pdu_parse_header(coap_pdu_t *pdu, coap_proto_t proto) {
     pdu->e_token_length = e_token_length;
     pdu->actual_token.length = pdu->e_token_length;
     pdu->actual_token.s = &pdu->token[0];
-  } else if (e_token_length == COAP_TOKEN_EXT_1B_TKL) {
+  } else if (e_token_length == COAP_TOKEN_EXT_1B_TKL && pdu->used_size >= 1) {
     pdu->e_token_length = pdu->token[0] + COAP_TOKEN_EXT_1B_BIAS + 1;
     pdu->actual_token.length = pdu->e_token_length - 1;
     pdu->actual_token.s = &pdu->token[1];
-  } else if (e_token_length == COAP_TOKEN_EXT_2B_TKL) {
+  } else if (e_token_length == COAP_TOKEN_EXT_2B_TKL && pdu->used_size >= 2) {
     pdu->e_token_length = ((uint16_t)pdu->token[0] << 8) + pdu->token[1] +
                           COAP_TOKEN_EXT_2B_BIAS + 2;
     pdu->actual_token.length = pdu->e_token_length - 2;
     pdu->actual_token.s = &pdu->token[2];
+  } else {
+    /* Reserved TKL, or the extended token length bytes are not in the PDU */
+    e_token_length = 15;
   }
   if (pdu->e_token_length > pdu->alloc_size || e_token_length == 15) {
     /* Invalid PDU provided - not wise to assert here though */
